@@ -2,7 +2,8 @@
 
 CACHE <hex ops>            run an operation history against the real `CreateTableStatementGetter` in a fresh temporary
                            directory (ops joined by `;`:  new | nodisk | get:<hex name> | crash:<steps>:<flushed>:<hex name> |
-                           put:<hex file name>:<hex text> = somebody else writes a file into the cache directory);
+                           put:<hex file name>:<hex text> = somebody else writes a file into the cache directory | anylength as first
+                           op = names whose file name is too long for the file system are let through: implementation only);
                            same answer format as `lean/MsqModel/Driver/CmdCache.lean`.
 QUOTE <hex name>           the name of the file `save_to_disk` creates for a table (observed in a fresh directory)
 STEM <hex file name>       the table name `__init__` reads out of a directory entry of that name (`none` if it is ignored)
@@ -167,8 +168,9 @@ def listing(d, skip=(), prefix=""):
 def run_ops(ops):
     from metasequoia_sql.analyzer import tool
     names = [unhx(o.split(":")[-1]) for o in ops if o.startswith(("get:", "crash:"))]
+    anylength = ops[:1] == ["anylength"]         # implementation only: names whose file name the file system refuses (the model has no length limit)
     for n in names:
-        if sandbox_class(n) != "ok":
+        if sandbox_class(n) != "ok" and not (anylength and sandbox_class(n) == "long" and "/" not in n):
             return "UNMODELLED path"
     for o in ops:
         if o.startswith("put:") and not (len(o.split(":")) == 3 and fs_name_ok(bytes.fromhex(o.split(":")[1]))):
@@ -221,6 +223,8 @@ def run_ops_in(ops, sandbox):
                 except Exception as e:
                     inst = None
                     out.append("E:" + canon.err_kind(e).replace(" ", "_"))
+            elif parts[0] == "anylength":
+                out.append("L")
             elif parts[0] == "put":
                 with real_open(os.path.join(os.fsencode(cache), bytes.fromhex(parts[1])), "w", encoding="UTF-8", newline="") as f:
                     f.write(unhx(parts[2]))
